@@ -62,6 +62,8 @@ def make_trace(tid, rng, nops=25, **opt):
     sector = rng.choice([512, 512, 4096])
     bs = rng.choice([1 << 20, 1 << 20, 2 << 20, 8 << 20])
     n = rng.randrange(2, 40 if bs == (1 << 20) else 12)
+    if opt.get("many"):  # several hundred BAT entries (below 2 GiB so that byte offsets fit TLC integers)
+        bs, n = 1 << 20, rng.randrange(300, 1500)
     npos = n + rng.randrange(0, 3)
     pos = list(range(npos))
     rng.shuffle(pos)
@@ -105,7 +107,7 @@ def run(ctx):
     sts = diskprop.dump_states(ctx, "Vhdx", "Vhdx_img4.cfg" if thorough else "Vhdx_img.cfg")
     diskprop.replay_states(ctx, "vhdx", sts, PROFILES_THOROUGH if thorough else PROFILES_QUICK, build,
                            attrs_of=_attrs, cap=64 if thorough else 36, sectors_api=_sectors)
-    diskprop.traces(ctx, "vhdx", lambda tid, r: make_trace(tid, r, 40 if thorough else 25), 320 if thorough else 48,
+    diskprop.traces(ctx, "vhdx", lambda tid, r: make_trace(tid, r, 40 if thorough else 25, many=("mid" if tid % 8 == 0 else None)), 320 if thorough else 48,
                     "TraceDisk", "TraceDisk.cfg", lambda t: {"format": "vhdx", "block_size": t["geo"]["cellB"], "sector": t["sector"]})
 
 
